@@ -55,7 +55,7 @@ PROPS = {
                 state=kinds("CX", "NQ", "XQ", "NH", "XH"), effects=eff("ev"), errnames=False),
     "C11": dict(profiles=["lifecycle", "mixed", "genesis"], monitors=["queues", "requests"],
                 state=kinds("CX", "NQ", "XQ", "NH", "XH", "AI", "AB", "RQ"), effects=eff("ev"), errnames=False),
-    "C12": dict(profiles=["modules", "lifecycle"], monitors=["counts", "callbacks"],
+    "C12": dict(profiles=["modules", "lifecycle", "genesis"], monitors=["counts", "callbacks"],
                 state=kinds("CX", "RQ", "RS"), effects=eff("respcb", "statecb", "ev"), errnames=False),
     "C13": dict(profiles=["money", "mixed", "genesis"], monitors=["ownerEarnings", "withdrawLaw", "conservation"],
                 state=kinds("EF", "OE", "WD", "A", "OW"), effects=eff("transfer"), errnames=True),
